@@ -29,9 +29,11 @@ CASE_TIMEOUT_S = 60
 LEVEL_TEXT = ("Lean proof: for every nesting of list/tuple/set/dict/OrderedDict/dataclass/namedtuple/iterator nodes, "
               "repack(map f collections) is the argument tuple with every collection replaced by its value and nothing "
               "else changed (repack_unpack; iterators become lists), collections are deduplicated by token; with "
-              "traverse=False only top-level collections are replaced (traverse_false). The traversal model is diffed "
-              "against dask.base.unpack_collections; compute/persist/optimize are compared end to end with "
-              "per-collection compute over schedulers and optimize_graph.")
+              "traverse=False only top-level collections are replaced (traverse_false); get_scheduler resolves by a fixed "
+              "precedence over the extracted named_schedulers table (explicit > config > class > common default, "
+              "differing defaults rejected). The traversal model is diffed against dask.base.unpack_collections, the "
+              "scheduler choice against dask.base.get_scheduler; compute/persist/optimize are compared end to end with "
+              "per-collection compute over schedulers (sync, threads, processes, Executor) and optimize_graph.")
 LEVEL_NOTE = ("dataclass / namedtuple reconstruction (Python reflection), type and metadata preservation of persist/optimize "
               "and scheduler independence are validated by the API-level oracle, not proved here (scheduler: C01).")
 TECHNIQUE = "Lean 4 proof (mutual structural induction with an extension-closed invariant on the collections list) + differential correspondence"
